@@ -530,7 +530,38 @@ def r8(ctx):
     ctx.floor(R, 1)
 
 
+def r9(ctx):
+    R = "C16-R9"
+    ctx.rule(R, "a configured limit reaches the field of its own name: where a Kernel is built from a KernelConfig (Kernel::with_config), every "
+                "field that has a namesake in KernelConfig (send_buf_cap, recv_buf_cap, mtu, ..) is initialised from that namesake and from no "
+                "other KernelConfig field - two same-typed caps crossed in the constructor compile, and the guards in tcp.rs are then fed the "
+                "wrong numbers")
+    KC = "field:turmoil_net::kernel::KernelConfig::"
+    cfgf = {f.get("name") for v in (ctx.w.adts.get("turmoil_net::kernel::KernelConfig") or {}).get("variants", []) for f in v.get("fields", [])}
+    n = 0
+    for b in sorted(ctx.w.bodies.values(), key=lambda x: x.id):
+        if b.crate != "turmoil_net":
+            continue
+        for bb, i, st in b.all_stmts():
+            r = st["r"]
+            if i == "term" or r["k"] != "agg" or r.get("adt") != "turmoil_net::kernel::Kernel" or not r.get("fields"):
+                continue
+            for fname, op in zip(r["fields"], r["ops"]):
+                if fname not in cfgf:
+                    continue
+                got = {a[len(KC):] for a in Slicer(ctx.w).atoms(b, op) if a.startswith(KC)}
+                if not got:
+                    continue
+                n += 1
+                ok = got == {fname}
+                ctx.inst(R, f"kernel-field:{fname}", ok, st["s"], f"Kernel::{fname} is taken from KernelConfig::{fname}" if ok else
+                         f"`{b.id}` initialises Kernel::{fname} from KernelConfig::{sorted(got)}: with asymmetric settings the send buffer is capped by the receive cap (poll_send queues "
+                         "past send_buf_cap with no WouldBlock) and the receiver holds / advertises past recv_buf_cap")
+    ctx.floor(R, 4)
+
+
 def run(ctx):
+    r9(ctx)
     r8(ctx)
     from . import C06
     C06.r16(ctx)   # the room left in the peer's window is computed on wrapping differences of sequence numbers
